@@ -64,16 +64,18 @@ end CGV.Props.C06
   store's answers.  `store` is the set of keys on which the store holds the transaction's pessimistic lock (it follows the
   requests: no request is lost), `tracked` = currentLockedKeys ∪ lastRetryUnnecessaryLocks ∪ membuffer keys flagged locked.
   The statements quantify over ALL op sequences; `Admissible` evaluates, step by step along the run, the store's contract
-  for the answers (`wfLock`) and the absence of the excluded situations (`excludedLock`, `endOk`).  The model is tied to
-  the real KVTxn by checks/c06.py (harness/c06agg, cgv-c06agg).
+  for the answers (`wfLock`) and that Commit / Rollback are not called inside a stage that still holds keys (`endOk`).
+  The model follows the REPAIRED lockKeys (an entry taken out of lastRetryUnnecessaryLocks for a re-request is put back
+  when the call neither records the key nor rolls it back); `Old.run` is the code as it was.  The model is tied to the
+  real KVTxn by checks/c06.py (harness/c06agg, cgv-c06agg).
 -/
 namespace CGV.Props.C06.Bookkeeping
 open CGV.AggLock
 
 /-- no leak between ops: every lock the store holds is one the client still tracks and will release.
-    PARTIAL: `Admissible` excludes (1) a one-key LockKeys call inside aggressive locking for a key of
-    lastRetryUnnecessaryLocks that is answered write conflict / key exists, or answered successfully with
-    LockOnlyIfExists and "not found" (`excludedLock`), and (2) Commit / Rollback inside a stage that holds keys (`endOk`). -/
+    PARTIAL: `Admissible` excludes Commit / Rollback inside an aggressive-locking stage that holds keys (`endOk`: API
+    misuse, answered with an error and a closed transaction); every LockKeys answer that satisfies the store's contract
+    is inside the fragment, including the two situations that leaked before the repair. -/
 theorem noleak_invariant_partial (ops : List Op) (h : Admissible init ops = true) :
     ∀ k, k ∈ (run init ops).store → k ∈ tracked (run init ops) :=
   (run_inv ops init init_inv h).sub
@@ -106,39 +108,33 @@ theorem commit_releases_all_partial (ops : List Op) (h : Admissible init (ops ++
 theorem chk_noleak_ok_partial (ops : List Op) (h : Admissible init ops = true) : leaked (run init ops) = [] :=
   leaked_nil_of_inv (run_inv ops init init_inv h)
 
-/-- the exclusion of lock calls is EXACT, for every state: whenever a call is in the excluded situation (`relock`, `excludedLock`),
-    its request is really sent and the store still holds the previous attempt's lock on the key, which is in neither
-    currentLockedKeys nor flagged, then right after the call the key is leaked (held by the store, tracked nowhere) -/
-theorem excluded_lock_is_exact (s : State) (i : LockIn) (k : Key) (hcl : s.closed = false) (hwf : wfLock i = true)
-    (hr : relock s i = some k) (hx : excludedLock s i = true) (hs0 : s.req = []) (hreq : (lockStep s i).req ≠ [])
-    (hst : k ∈ s.store) (hc : k ∉ keysOf s.current) (hf : k ∉ fkeys s.flagged) : k ∈ leaked (lockStep s i) :=
-  excluded_lock_leaks hcl hwf hr hx hs0 hreq hst hc hf
+/-- the remaining exclusion is needed: ending the transaction inside a stage that holds a key leaks it -/
+theorem excluded_pending_leaks : WellFormed witnessPending = true ∧ (run init witnessPending).closed = true ∧
+    (run init witnessPending).store = [1] := by decide
 
-/-- the FULL statement (only the store's contract assumed) is false for the code as it is: the known leak -/
-theorem noleak_full_false : ¬ ∀ ops : List Op, WellFormed ops = true → leaked (run init ops) = [] := by
-  intro h
-  have := h witnessLoie (by decide)
-  revert this
-  decide
-
+/-- so without `endOk` the statement is false -/
 theorem ended_holds_nothing_full_false :
     ¬ ∀ ops : List Op, WellFormed ops = true → (run init ops).closed = true → (run init ops).store = [] := by
   intro h
-  have := h (witnessLoie ++ [.commit]) (by decide) (by decide)
+  have := h witnessPending (by decide) (by decide)
   revert this
   decide
 
-/-- each excluded situation leaks on its own: lock-only-if-exists "not found" on a key of the previous attempt … -/
-theorem excluded_loie_leaks : WellFormed witnessLoie = true ∧ leaked (run init witnessLoie) = [1] ∧
-    (run init (witnessLoie ++ [.rollback])).store = [1] := by decide
+/-- what the repair changed, on the two witness sequences: the code as it was (`Old.run`) leaks key 1 … -/
+theorem unrepaired_loie_leaks : WellFormed witnessLoie = true ∧ leaked (Old.run init witnessLoie) = [1] ∧
+    (Old.run init (witnessLoie ++ [.rollback])).store = [1] := by decide
 
-/-- … key exists (or write conflict) on the re-request of a key of the previous attempt … -/
-theorem excluded_key_exists_leaks : WellFormed witnessKeyExists = true ∧ leaked (run init witnessKeyExists) = [1] ∧
-    (run init (witnessKeyExists ++ [.rollback])).store = [1] := by decide
+theorem unrepaired_key_exists_leaks : WellFormed witnessKeyExists = true ∧ leaked (Old.run init witnessKeyExists) = [1] ∧
+    (Old.run init (witnessKeyExists ++ [.rollback])).store = [1] := by decide
 
-/-- … and ending the transaction inside a stage that holds a key -/
-theorem excluded_pending_leaks : WellFormed witnessPending = true ∧ (run init witnessPending).closed = true ∧
-    (run init witnessPending).store = [1] := by decide
+/-- … the repaired code keeps the key in lastRetryUnnecessaryLocks, DoneAggressiveLocking releases it -/
+theorem repaired_loie_released : Admissible init witnessLoie = true ∧
+    (run init (witnessLoie.take 4)).lastRetry.length = 1 ∧ (run init witnessLoie).rb = [1] ∧
+    (run init witnessLoie).store = [] := by decide
+
+theorem repaired_key_exists_released : Admissible init witnessKeyExists = true ∧
+    (run init (witnessKeyExists.take 5)).lastRetry.length = 1 ∧ (run init witnessKeyExists).rb = [1] ∧
+    (run init witnessKeyExists).store = [] := by decide
 
 -- non-vacuity: an admissible run in which all three sets and the store are non-empty at some point, and its ends
 example : Admissible init sampleRun = true ∧ (run init sampleRun).store ≠ [] ∧ (run init sampleRun).flagged.length = 4 := by decide
@@ -147,15 +143,10 @@ example : Admissible init (sampleRun.take 7) = true ∧ ((run init (sampleRun.ta
 example : Admissible init (sampleRun ++ [.rollback]) = true ∧ (run init sampleRun).store.length = 4 := by decide
 example : Admissible init (sampleRun ++ [.commit]) = true ∧ (run init (sampleRun ++ [.commit])).cm.length = 4 := by decide
 example : Admissible init (sampleRun ++ [.rollback]) = true ∧ (run init (sampleRun ++ [.rollback])).closed = true := by decide
--- `excluded_lock_is_exact` is not vacuous: the state before the excluded step of the known leak satisfies its hypotheses
-example : let s := clearOut (run init (witnessLoie.take 3))
-    s.closed = false ∧ relock s { keys := [1], o := { rv := true, loie := true }, fu := 11, ans := [{ key := 1, exist := false }] } = some 1 ∧
-    excludedLock s { keys := [1], o := { rv := true, loie := true }, fu := 11, ans := [{ key := 1, exist := false }] } = true ∧
-    (lockStep s { keys := [1], o := { rv := true, loie := true }, fu := 11, ans := [{ key := 1, exist := false }] }).req = [1] ∧
-    s.store = [1] ∧ s.current = [] ∧ s.flagged = [] := by decide
--- the witnesses are outside the fragment exactly at the excluded step
-example : Admissible init (witnessLoie.take 3) = true ∧ Admissible init (witnessLoie.take 4) = false := by decide
-example : Admissible init (witnessKeyExists.take 4) = true ∧ Admissible init (witnessKeyExists.take 5) = false := by decide
+-- the former leak sequences are inside the fragment now, with something to release at their end
+example : Admissible init (witnessLoie ++ [.commit]) = true ∧ (run init (witnessLoie.take 4)).store = [1] := by decide
+example : Admissible init (witnessKeyExists ++ [.rollback]) = true ∧ (run init (witnessKeyExists.take 5)).store = [1] := by decide
+-- the pending witness leaves the fragment exactly at the excluded step
 example : Admissible init (witnessPending.take 2) = true ∧ Admissible init witnessPending = false := by decide
 
 end CGV.Props.C06.Bookkeeping
